@@ -175,6 +175,10 @@ def gen_configs(pid, tier):
                 ("gen_crash_reorder", sc(Ops={"listen", "accept", "connect", "write"}, Faults={"crash"}, Targets={1},
                                          Writers={2}, Early=True, Cap=2, LatChoices={1, 3}, MaxLat=2, MaxOps=6,
                                          MaxFaults=1, MaxSteps=6)),
+                # several hosts selected by one regex call (adjacent crash 1, crash 2 = one Sim::crash(Regex)),
+                # also when the first member of the group is already down
+                ("gen_crash_regex", sc(Ops={"bg"}, Faults={"crash", "bounce"} if not q else {"crash"}, Targets={1, 2},
+                                       MaxOps=1, MaxFaults=3, MaxSteps=3)),
                 # the mirror image: the acceptor is the parked writer, the connector holds unread data and crashes
                 ("gen_crash_writer_acc", sc(Ops={"listen", "accept", "connect", "write"}, Faults={"crash"}, Targets={2},
                                             MaxOps=5, MaxFaults=1, MaxSteps=6))]
@@ -190,7 +194,9 @@ def gen_configs(pid, tier):
                                                 Targets={2}, MaxOps=6, MaxFaults=1, MaxSteps=6)),
                     ("gen_crash_reorder", sc(Ops={"listen", "accept", "connect", "write", "read"},
                                              Faults={"crash", "bounce"}, Targets={1}, Writers={2}, Early=True, Cap=2,
-                                             LatChoices={1, 3}, MaxLat=2, MaxOps=6, MaxFaults=1, MaxSteps=6))]
+                                             LatChoices={1, 3}, MaxLat=2, MaxOps=6, MaxFaults=1, MaxSteps=6)),
+                    ("gen_crash_regex", sc(Ops={"bg", "ubind"}, Faults={"crash", "bounce"}, Targets={1, 2}, MaxOps=2,
+                                           MaxFaults=3, MaxSteps=3))]
         return cfgs
     raise ValueError(pid)
 
